@@ -11,7 +11,7 @@ def run(ctx):
     defs = {
         "MCNames": tla_set_of(["a", "az", "z", "aa"] if quick else ["a", "az", "z", "aa", "za", "a_"]),
         "MCHelps": tla_set_of(["a", "az"] if quick else ["a", "az", "z", "aÿ"]),
-        "MCLN": tla_set_of(["a", "z", "az"]),
+        "MCLN": tla_set_of(["a", "A", "az"] if quick else ["a", "A", "z", "az"]),      # incl. two names that differ only in case
         # values incl. boundary-shifted splits around plain letters and around U+FF (whose scalar value is the library's separator byte)
         "MCVals": "{<<>>, <<LA>>, <<LZ>>, <<LA, LZ>>, <<YUML>>, <<LA, YUML>>, <<YUML, LA>>}" if quick else "StrUpTo({LA, LZ}, 2) \\cup {<<LA, LZ, LA>>, <<EACUTE>>, <<LA, EACUTE>>, <<YUML>>, <<LA, YUML>>, <<YUML, LA>>}",
         "MCTheorem": "RandomSubset(%d, Pool)" % (500 if quick else 1500),
